@@ -6,6 +6,7 @@ import CppUModel.Model.MockParam
 import CppUModel.Model.MockText
 import CppUModel.Proofs.MockGen
 import CppUModel.Gen.MockPlugin
+import CppUModel.Model.MockTeardown
 import CppUModel.Props.C09
 /-!
 # C08 — the mock verdict is exact
@@ -625,6 +626,60 @@ theorem testVerdict_eq (body : World → BodyResult) (w : World) :
 /-- the guard of the end-of-test check in `MockSupportPlugin::postTestAction`, regenerated from the
     source on every run, is the test's OWN state — not a count over the whole run -/
 theorem plugin_guard_is_own_test : Gen.MockPlugin.postGuard = "!test.hasFailed()" := by decide
+
+/-! ### the mock verified in `teardown()` with the library's default reporter -/
+
+/-- the body of `MockFailureReporter::failTest`, regenerated from `MockFailure.cpp` on every run: the
+    failure is delivered to the test iff the test has not failed yet -/
+theorem reporter_guard_is_not_failed_yet :
+    Gen.MockReporter.failTestGuard = "!getTestToFail()->hasFailed()" ∧
+    ∀ failed, Gen.MockReporter.reports failed = !failed :=
+  ⟨by decide, fun _ => rfl⟩
+
+/-- a delivering reporter ends `checkExpectations` at its first finding -/
+theorem teardownDelivering_at_most_one (w : World) : (teardownDelivering w).1.length ≤ 1 := by
+  unfold teardownDelivering
+  split
+  · simp
+  · split
+    · simp
+    · split <;> simp
+
+/-- **mock_fails_test_at_most_once.** A test that verifies its mock in `teardown()`
+    (`mock().checkExpectations(); mock().clear();`) with the default reporter: if the body was left
+    at its first mock failure (`msgs` has at most one entry, and a reported failure means the test has
+    failed), the test is failed by the mock at most once over body and teardown — whatever
+    `checkExpectations` finds afterwards (unfulfilled expectations, out-of-order calls, a call in
+    flight) —, and a test that has already failed gets nothing from the end-of-test check. -/
+theorem mock_fails_test_at_most_once (r : BodyResult)
+    (h1 : r.msgs.length ≤ 1) (h2 : r.failed = false → r.msgs = []) :
+    (r.msgs ++ (teardownPost r).1).length ≤ 1 ∧ (r.failed = true → (teardownPost r).1 = []) := by
+  have hsil : r.failed = true → (teardownPost r).1 = [] := by
+    intro hf
+    simp [teardownPost, teardownPostWith, Gen.MockReporter.reports, hf, teardownSilent]
+  refine ⟨?_, hsil⟩
+  cases hf : r.failed with
+  | true => simp [hsil hf, h1]
+  | false =>
+    simp only [h2 hf, List.nil_append]
+    simp only [teardownPost, teardownPostWith, Gen.MockReporter.reports, hf, Bool.not_false, if_true]
+    exact teardownDelivering_at_most_one r.w
+
+/-- the world the seeded scenario leaves: strict order, `first` and `second` expected, called as
+    `second`, `first` (out of order, accepted), then the unexpected `third` ended the body -/
+def teardownWitness : World :=
+  ((((((World.init.strictOrder "").expectN "" 1 "first" []).expectN "" 1 "second" []).call "" "second" [] []).w.call
+      "" "first" [] []).w.call "" "third" [] []).w
+
+/-- non-vacuity: on that world the end-of-test check DOES find something (a delivering reporter would
+    report "Out of order calls"), the body has reported its one failure, and the teardown adds nothing -/
+example :
+    ((((((World.init.strictOrder "").expectN "" 1 "first" []).expectN "" 1 "second" []).call "" "second" [] []).w.call
+        "" "first" [] []).w.call "" "third" [] []).fail = some "Mock Failure: Unexpected call to function: third" ∧
+    (teardownDelivering teardownWitness).1 = [msgOutOfOrder] ∧
+    (teardownPost { w := teardownWitness, failed := true, msgs := ["Mock Failure: Unexpected call to function: third"] }).1 = [] ∧
+    (teardownPost { w := teardownWitness, failed := false, msgs := [] }).1 = [msgOutOfOrder] := by
+  decide
 
 /-! ### the hypotheses are what the API produces -/
 
